@@ -34,7 +34,7 @@ def mkcfg(kind, parent, req, **kw):
         "win": arr("win", 0), "tmo": arr("tmo", -1), "stmo": arr("stmo", 1),
         "dur": arr("dur", 1), "out": arr("out", "ok"),
         "sdur": arr("sdur", 0), "cdur": arr("cdur", 0), "scdur": arr("scdur", 0),
-        "horizon": kw.get("horizon", 0),
+        "horizon": kw.get("horizon", 0), "ucancel": kw.get("ucancel", -1),
     }
 
 
